@@ -26,6 +26,9 @@ type c06Case struct {
 	// Pre: an encoding of a DIFFERENT attribute into another message that happens first (1 UNKNOWN-ATTRIBUTES,
 	// 2 ERROR-CODE, 3 text, 4 XOR address); the case's bytes must not depend on it.
 	Pre int `json:"pre,omitempty"`
+	// Reuse: the Message was used for a larger message, Reset, and the attribute is added BEFORE WriteHeader
+	// (the idiom of the library's own benchmarks): Raw and Length are out of step while the setter runs
+	Reuse bool `json:"reuse,omitempty"`
 }
 
 func c06Pre(pre int) {
@@ -174,6 +177,13 @@ func c06Reuse(k c06Case) (string, string) {
 	return "", ""
 }
 
+// c06Finish writes the header after the setter when the attribute was added to a Reset message first.
+func c06Finish(m *stun.Message, k c06Case) {
+	if k.Reuse {
+		m.WriteHeader()
+	}
+}
+
 func c06Check1(k c06Case) (string, string) {
 	if k.Kind == "reuse-xor" || k.Kind == "reuse-mapped" {
 		return c06Reuse(k)
@@ -181,9 +191,15 @@ func c06Check1(k c06Case) (string, string) {
 	tid := tid12(k.TID)
 	c06Pre(k.Pre)
 	m := new(stun.Message)
+	if k.Reuse {
+		_ = m.Build(stun.BindingRequest, stun.NewTransactionIDSetter([12]byte{0xEE, 0xEE, 0xEE, 0xEE}), stun.Software(bytes.Repeat([]byte{0xEE}, 700)), stun.Realm(bytes.Repeat([]byte{0xEE}, 700)))
+		m.Reset()
+	}
 	m.TransactionID = tid
 	m.Type = stun.BindingSuccess
-	m.WriteHeader()
+	if !k.Reuse {
+		m.WriteHeader()
+	}
 	switch k.Kind {
 	case "xor", "mapped":
 		var err error
@@ -214,6 +230,7 @@ func c06Check1(k c06Case) (string, string) {
 		if err != nil {
 			return k.Kind + "-addto-error", fmt.Sprintf("AddTo(%v:%d) as %#x: %v", net.IP(k.IP), k.Port, k.Attr, err)
 		}
+		c06Finish(m, k)
 		// (ii) bytes written
 		wantRaw := ref.Encode(ref.TypeWord(1, 2), tid, []ref.EncodeAttr{{Type: k.Attr, Value: wantVal}})
 		if !bytes.Equal(m.Raw, wantRaw) {
@@ -292,6 +309,7 @@ func c06Check1(k c06Case) (string, string) {
 		if err != nil {
 			return "text-rejected-within-limit", fmt.Sprintf("%v of %d bytes rejected: %v", at, k.Len, err)
 		}
+		c06Finish(m, k)
 		wantRaw := ref.Encode(ref.TypeWord(1, 2), tid, []ref.EncodeAttr{{Type: k.Attr, Value: val}})
 		if !bytes.Equal(m.Raw, wantRaw) {
 			return "text-wire-format", fmt.Sprintf("%v of %d bytes: wire bytes differ from the RFC encoding", at, k.Len)
@@ -374,6 +392,7 @@ func c06Check1(k c06Case) (string, string) {
 		if err := (stun.ErrorCodeAttribute{Code: stun.ErrorCode(k.Code), Reason: reason}).AddTo(m); err != nil {
 			return "errcode-rejected", fmt.Sprintf("ERROR-CODE %d with %d-byte reason rejected: %v", k.Code, k.Len, err)
 		}
+		c06Finish(m, k)
 		wantVal := ref.EncodeErrorCode(k.Code, reason)
 		wantRaw := ref.Encode(ref.TypeWord(1, 2), tid, []ref.EncodeAttr{{Type: 0x0009, Value: wantVal}})
 		if !bytes.Equal(m.Raw, wantRaw) {
@@ -401,6 +420,7 @@ func c06Check1(k c06Case) (string, string) {
 		if err := list.AddTo(m); err != nil {
 			return "unknown-rejected", err.Error()
 		}
+		c06Finish(m, k)
 		wantVal := ref.EncodeUnknownAttributes(k.Types)
 		wantRaw := ref.Encode(ref.TypeWord(1, 2), tid, []ref.EncodeAttr{{Type: 0x000A, Value: wantVal}})
 		v, _ := m.Get(stun.AttrUnknownAttributes)
@@ -587,6 +607,52 @@ func init() {
 					do(c06Case{Kind: "xor", Attr: 0x0020, IP: ip, Port: 0, TID: tids[0], Pre: pre}, "xor/after-other")
 					do(c06Case{Kind: "mapped", Attr: 0x0001, IP: ip, Port: 0, TID: tids[0], Pre: pre}, "mapped/after-other")
 				}
+			}
+			// every kind again on a Message that was used, Reset, and gets its header only after the attribute
+			for code := 300; code <= 699; code += 3 {
+				for _, l := range []int{0, 1, 5, 11, 12, 13, 16, 17, 100, 763} {
+					do(c06Case{Kind: "errcode", Code: code, Len: l, TID: tids[2], Reuse: true}, "errcode/reset-then-add")
+				}
+			}
+			for n := 0; n <= 24; n++ {
+				ts := make([]uint16, n)
+				for j := range ts {
+					ts[j] = uint16(0x8000 + j)
+				}
+				do(c06Case{Kind: "unknown", Types: ts, TID: tids[2], Reuse: true}, "unknown/reset-then-add")
+			}
+			for _, ta := range []uint16{0x0006, 0x0014, 0x0015, 0x8022} {
+				for l := 0; l <= 513; l += 7 {
+					do(c06Case{Kind: "text", Attr: ta, Len: l, Filler: 0x41, TID: tids[2], Reuse: true}, "text/reset-then-add")
+				}
+			}
+			for _, ip := range ips {
+				for _, at := range xorAttrs {
+					do(c06Case{Kind: "xor", Attr: at, IP: ip, Port: 4242, TID: tids[2], Reuse: true}, "xor/reset-then-add")
+				}
+				for _, at := range mappedAttrs {
+					do(c06Case{Kind: "mapped", Attr: at, IP: ip, Port: 4242, TID: tids[2], Reuse: true}, "mapped/reset-then-add")
+				}
+			}
+			// unknown attributes: lists with repeated entries (all pairs and triples over 4 types, runs of one type)
+			rep := []uint16{0x0030, 0x0014, 0x8022, 0xFFFF}
+			for _, a := range rep {
+				for _, b := range rep {
+					do(c06Case{Kind: "unknown", Types: []uint16{a, b}, TID: tids[2]}, "unknown/repeats")
+					for _, d := range rep {
+						do(c06Case{Kind: "unknown", Types: []uint16{a, b, d}, TID: tids[2]}, "unknown/repeats")
+						for _, e := range rep {
+							do(c06Case{Kind: "unknown", Types: []uint16{a, b, d, e}, TID: tids[2]}, "unknown/repeats")
+						}
+					}
+				}
+			}
+			for n := 1; n <= 12; n++ {
+				ts := make([]uint16, n)
+				for j := range ts {
+					ts[j] = 0x0015
+				}
+				do(c06Case{Kind: "unknown", Types: ts, TID: tids[2]}, "unknown/repeats")
 			}
 			// unknown attributes: every singleton, lists of 0..64 entries
 			for t := 0; t < 65536; t++ {
